@@ -197,6 +197,37 @@ func (e *env) eval(t M) []byte {
 			b[at] = byte(num(t["v"]))
 		}
 		return b
+	case "lookup": // table keyed by the hex of the evaluated key; default otherwise
+		key := fmt.Sprintf("%x", e.eval(m(t["key"])))
+		if v, ok := m(t["table"])[key]; ok {
+			return e.eval(m(v))
+		}
+		return e.eval(m(t["default"]))
+	case "len16":
+		n := len(e.eval(m(t["of"])))
+		return []byte{byte(n), byte(n >> 8)}
+	case "padseq": // append 1,2,..,p,p so that the total is a multiple of `block`
+		b := append([]byte(nil), e.eval(m(t["of"]))...)
+		blk := num(t["block"])
+		p := (blk - 1) - len(b)%blk
+		for i := 1; i <= p; i++ {
+			b = append(b, byte(i))
+		}
+		return append(b, byte(p))
+	case "padff": // append p bytes 0xFF, p, `last` so that len+2 is a multiple of `align`
+		b := append([]byte(nil), e.eval(m(t["of"]))...)
+		al := num(t["align"])
+		p := (al - (len(b)+2)%al) % al
+		for i := 0; i < p; i++ {
+			b = append(b, 0xff)
+		}
+		return append(b, byte(p), byte(num(t["last"])))
+	case "cksum": // two's complement checksum byte of the operand
+		var c byte
+		for _, x := range e.eval(m(t["of"])) {
+			c += x
+		}
+		return []byte{-c}
 	case "addbyte":
 		b := append([]byte(nil), e.eval(m(t["of"]))...)
 		at := idx(num(t["at"]), len(b))
